@@ -669,6 +669,10 @@ func (ni *NodeInfo) getResourceGpuPortion(res *resource_info.ResourceRequirement
 
 func (ni *NodeInfo) isValidGpuPortion(res *resource_info.ResourceRequirements) bool {
 	gpuPortion := ni.getResourceGpuPortion(res)
+	if res.GpuMemory() > 0 {
+		// a gpu-memory request is for (a part of) one device: it cannot take more memory than the device has
+		return gpuPortion <= 1
+	}
 	return gpuPortion <= 1 || gpuPortion == float64(int(gpuPortion))
 }
 
